@@ -1659,6 +1659,20 @@ where
 
         let tag: Tag = Tag::custom(TagKind::h(), [hex::encode(group.nostr_group_id)]);
 
+        #[cfg(mdk_verif)]
+        if let Some((created_at, lead)) = crate::verif_hooks::wrapper_override() {
+            loop {
+                let keys: Keys = Keys::generate();
+                let event = EventBuilder::new(Kind::MlsGroupMessage, encrypted_content.clone())
+                    .tag(tag.clone())
+                    .custom_created_at(Timestamp::from_secs(created_at))
+                    .sign_with_keys(&keys)?;
+                if lead.is_none_or(|b| event.id.as_bytes()[0] == b) {
+                    return Ok(event);
+                }
+            }
+        }
+
         let event = EventBuilder::new(Kind::MlsGroupMessage, encrypted_content)
             .tag(tag)
             .sign_with_keys(&ephemeral_nostr_keys)?;
